@@ -174,3 +174,23 @@ package nfs
 //@   ensures [Q3-maxfilesize] result.Status == 0 ==> uint64(result.Resok.Maxfilesize) == 1073774592 @C19
 //@   ensures [Q2-wtmax] result.Status == 0 ==> result.Resok.Wtmax == 2093056 @C19
 //@   ensures [L2-quiet] rpcPost(nfs) @C03 @C06
+
+// C06-D1/D2: lockInodes acquires in ascending inode-number order, each number
+// once; the inodes come back in the caller's order. (C08: nothing is said
+// about generations: callers must revalidate.)
+//@ specfunc allClean() = forall i uint64 :: held[i] ==> !dirtyinum[i] && abits[theIalloc][i]
+//@ spec lockInodes
+//@   props C06 C03 C08 C09 C11 C14
+//@   requires txOpen(op) && len(inums) <= 8
+//@   requires [D4-fromscratch] noLocks() @C06
+//@   allocates $TXALLOC
+//@   modifies $TXMODS, sortperm
+//@   ensures [aborted] len(result) == 0 && len(inums) > 0 ==> noLocks() && lastst == 3 && dirtyInv() && allocInv() @C09 @C06
+//@   ensures [locked] len(result) != 0 ==> len(result) == len(inums) && txOpen(op) && allClean() && (forall k uint64 :: k < len(inums) ==> held[inums[k]] && result[k] == op.inodes[inums[k]]) @C06 @C08
+//@   loop 0 invariant [tx] txOpen(op) && allClean() && len(sorted) == len(inums) && rangeindex >= -1 && uint64(rangeindex + 1) <= len(sorted)
+//@   loop 0 invariant [sorted] forall a uint64, b uint64 :: a < b && b < len(sorted) ==> sorted[a] <= sorted[b]
+//@   loop 0 invariant [perm] forall b uint64 :: b < len(inums) ==> sortperm[b] < len(sorted) && sorted[sortperm[b]] == inums[b]
+//@   loop 0 invariant [heldprefix] (forall i uint64 :: held[i] ==> exists k uint64 :: k < uint64(rangeindex + 1) && sorted[k] == i) && (forall k uint64 :: k < uint64(rangeindex + 1) ==> held[sorted[k]])
+//@   loop 1 invariant [tx] txOpen(op) && allClean() && len(inodes) == len(inums) && rangeindex >= -1 && uint64(rangeindex + 1) <= len(inums)
+//@   loop 1 invariant [allheld] forall k uint64 :: k < len(inums) ==> held[inums[k]]
+//@   loop 1 invariant forall k uint64 :: k < uint64(rangeindex + 1) ==> inodes[k] == op.inodes[inums[k]]
